@@ -74,8 +74,7 @@ def describe():
         "assumptions": [
             "program profile excludes what the generator cannot emit compilable code for on the pinned tree: "
             "shared-pointer-typed properties, templated free functions, `const string&` arguments, enums in free "
-            "functions or foreign classes; and constructs whose MATLAB behaviour cannot be confirmed without "
-            "MATLAB: void or pair-returning static methods (the .m always requests exactly one output)",
+            "functions or foreign classes",
             "an overload is 'right' if it is declared under the called name and its parameter types accept the "
             "supplied MATLAB values (set-valued)",
             "errors raised by mexErrMsgTxt unwind as C++ exceptions in the mock; leaks that only a longjmp would "
@@ -100,7 +99,7 @@ def _build_program(args):
     feats = {"enums": True, "force": force}
     if k < 0:          # the `thisargs` program: class templates using `This` as argument / return everywhere
         feats = {"enums": True, "force": ["template", "template", "enum_nested"], "this_args": True,
-                 "class_enum_nested": True, "plain_derive": False, "ref_returns": False}
+                 "class_enum_nested": True, "plain_derive": False, "ref_returns": False, "static_void": False}
     prog, itext, lib = MP.generate(tape, feats)
     open(os.path.join(d, "prog.i"), "w").write(itext)
     open(os.path.join(d, "lib.h"), "w").write(lib)
@@ -890,12 +889,8 @@ class Hist:
         if not cl:
             return
         c = self.t.pick(cl, "class")
-        f = self.t.pick([m for m in c.statics if not isinstance(m.ret, tuple)] or [None], "static")
-        if f is None:
-            return
+        f = self.t.pick(c.statics, "static")
         family = [m for m in c.statics if m.name == f.name]
-        if any(isinstance(m.ret, tuple) for m in family):
-            return      # excluded construct (see assumptions)
         sup = self.supplied(f)
         if sup is None:
             return
